@@ -22,7 +22,7 @@ def x_jobs():
     for f in ("f32",):
         for m in ("sma", "wma", "ema"):
             e = ("c03_" if m == "ema" else "c02_") + m
-            j.append(X(e, {"n": 4, "t": 7}, "%s length 4 under value_type_f32: the definitional identity over the reals does not depend on the float format (same obligation, feature on: the cfg-selected code paths are the ones interpreted)" % m, features=(f,), cost=3, encodes=ENC))
+            j.append(X(e, {"n": 4, "t": 7, "shape": "f"} if m == "ema" else {"n": 4, "t": 7}, "%s length 4 under value_type_f32: the definitional identity over the reals does not depend on the float format (same obligation, feature on: the cfg-selected code paths are the ones interpreted)" % m, features=(f,), cost=3, encodes=ENC))
     j.append(X("c04_smm", {"n": 2, "t": 4, "mode": "fp"}, "SMM length 2 under unsafe_performance + period_type_u16", features=("up", "p16"), cost=10, encodes=ENC))
     return j
 
